@@ -1157,7 +1157,7 @@ func Corpus() []core.In[Input] {
 		// F8 (recorded finding of C08): a scalar jq result is stored as {}
 		mk("trigger", Input{Version: "v1", Ctxs: []Ctx{event(".spec.replicas", true, pod("p", lbl, 3))}}),
 	}
-	return append(append(cases, flowCorpus()...), hookCorpus()...)
+	return append(append(append(cases, flowCorpus()...), hookCorpus()...), sharedCorpus()...)
 }
 
 func Gen(r *core.Rng, tier string) ([]core.In[Input], bool) {
@@ -1226,6 +1226,23 @@ func Gen(r *core.Rng, tier string) ([]core.In[Input], bool) {
 		ins = append(ins, core.In[Input]{Input: g.hook(triggerPct), Stream: "hook"})
 	}
 	g.served = false
+	// hooks with several kubernetes bindings on ONE resource (one shared informer) and different options (see shared.go)
+	nshared := 70
+	switch tier {
+	case "thorough":
+		nshared = 2500
+	case "search":
+		nshared = 1200
+	}
+	for i := 0; i < nshared; i++ {
+		triggerPct := 0
+		if i%12 == 11 {
+			triggerPct = 50
+		}
+		g.served = i%3 == 2
+		ins = append(ins, core.In[Input]{Input: g.hookShared(triggerPct), Stream: "hook-shared"})
+	}
+	g.served = false
 	// low-rate trigger streams of the recorded findings F30 (two bindings of one type share a name) and
 	// F31 (a validating and a mutating binding share a name); the ordinary hook stream never produces them
 	ndup := 6
@@ -1244,6 +1261,7 @@ func Gen(r *core.Rng, tier string) ([]core.In[Input], bool) {
 		ins = append(ins, flowServedExhaustive()...)
 		ins = append(ins, hookExhaustive()...)
 		ins = append(ins, hookConvExhaustive()...)
+		ins = append(ins, sharedExhaustive()...)
 	}
 	if tier == "thorough" || tier == "search" {
 		// every documented kind x jqFilter {unset, object-valued, scalar} x keepFullObjectsInMemory x
@@ -1279,7 +1297,7 @@ func Gen(r *core.Rng, tier string) ([]core.In[Input], bool) {
 		panic("jq oracle: " + err.Error())
 	}
 	for i := range ins {
-		if (ins[i].Stream == "random" || ins[i].Stream == "flow" || ins[i].Stream == "hook") && hasTrigger(ins[i].Input) {
+		if (ins[i].Stream == "random" || ins[i].Stream == "flow" || ins[i].Stream == "hook" || ins[i].Stream == "hook-shared") && hasTrigger(ins[i].Input) {
 			ins[i].Stream = "trigger"
 		}
 	}
@@ -1288,6 +1306,6 @@ func Gen(r *core.Rng, tier string) ([]core.In[Input], bool) {
 
 var Driver = core.Driver[Input, Obs]{
 	Spec: core.Spec{Property: "C09", Imports: []string{"Json", "C09_Model", "C09_Spec", "C09_Corr"}, Corr: "C09_Corr", Triggers: []string{"F8", "F30", "F31"}, ShrinkKey: "ctxs",
-		Rule: "lists of 1-4 binding contexts rendered by ConvertBindingContextList(version,ctxs).Json(); objects go through the real applyFilter(+RemoveFullObject), kubernetes contexts through ConvertKubeEventToBindingContext; expected jq values from /usr/bin/jq; streams: corpus (F3/F15 witnesses, doc examples, legacy string filter results), random (documented kinds x options), trigger (jq results that are not one object, F8), malformed (undocumented struct states: model agreement only), exhaustive (thorough: kind x jqFilter x keepFull x snapshots x version), flow (one kubernetes binding on a fake cluster: the files of the real informer path), hook (a hook with kubernetes and schedule/validating/mutating/conversion bindings that share names across the binding types and include different snapshots: ONE combined array rendered as Hook.Run does, namesakes in both orders; conversion bindings with 1-4 rules, several bindings per CRD, a request per rule), in every second flow / hook case and every fifth list the objects are shaped as an API server returns them (metadata.managedFields with 1-3 managers, uid, resourceVersion, creationTimestamp, generation, sometimes the last-applied annotation; tags objects:api-server-shaped / jq-reads:server-fields) and the jqFilter mostly reads those fields (`.`, `.metadata`, `{m: [.metadata.managedFields[]?.manager]}`, ...): /usr/bin/jq answers for the object as created in the cluster, the model runs jq on ApplyFilter's deep copy of it; trigger-F30 / trigger-F31 (hooks in which two bindings of one type, or a validating and a mutating binding, share a name: recorded findings); non-trivial = some context carries objects, snapshots or a review; distinct = distinct input JSON"},
+		Rule: "lists of 1-4 binding contexts rendered by ConvertBindingContextList(version,ctxs).Json(); objects go through the real applyFilter(+RemoveFullObject), kubernetes contexts through ConvertKubeEventToBindingContext; expected jq values from /usr/bin/jq; streams: corpus (F3/F15 witnesses, doc examples, legacy string filter results), random (documented kinds x options), trigger (jq results that are not one object, F8), malformed (undocumented struct states: model agreement only), exhaustive (thorough: kind x jqFilter x keepFull x snapshots x version), flow (one kubernetes binding on a fake cluster: the files of the real informer path), hook (a hook with kubernetes and schedule/validating/mutating/conversion bindings that share names across the binding types and include different snapshots: ONE combined array rendered as Hook.Run does, namesakes in both orders; conversion bindings with 1-4 rules, several bindings per CRD, a request per rule), hook-shared (2-3 kubernetes bindings of one hook on ONE resource - one shared client-go informer - with different keepFullObjectsInMemory / jqFilter / executeHookOnEvent / includeSnapshotsFrom: every cluster operation is one delivery to each of them, the combined array mixes their Synchronization and Event contexts and is rendered after all of them handled the deliveries; every item is judged with ITS binding's options), in every second flow / hook case and every fifth list the objects are shaped as an API server returns them (metadata.managedFields with 1-3 managers, uid, resourceVersion, creationTimestamp, generation, sometimes the last-applied annotation; tags objects:api-server-shaped / jq-reads:server-fields) and the jqFilter mostly reads those fields (`.`, `.metadata`, `{m: [.metadata.managedFields[]?.manager]}`, ...): /usr/bin/jq answers for the object as created in the cluster, the model runs jq on ApplyFilter's deep copy of it; trigger-F30 / trigger-F31 (hooks in which two bindings of one type, or a validating and a mutating binding, share a name: recorded findings); non-trivial = some context carries objects, snapshots or a review; distinct = distinct input JSON"},
 	Gen: Gen, Run: Run, Render: Render, PerShard: 20, Workers: 8, CaseTimout: 20 * time.Second,
 }
